@@ -210,12 +210,31 @@ def resolve_action(op: List, n_actions: int, meta: Optional[Dict]) -> int:
     return idxs[j % len(idxs)]
 
 
+TIMED_VERBS = ("-fix", "-restart", "-scan", "-install", "-restore", "-startup", "-shutdown", "-reset", "-remove")
+
+
+def rep_action(op: List, meta: Optional[Dict]) -> Optional[int]:
+    """['rep', j, v, n]: the action repeated on component group j - one that starts something that takes time (fix,
+    restart, scan, install, restore, power) when the group has one, so that the repeat meets it in progress."""
+    comps = (meta or {}).get("components") or []
+    if not comps:
+        return None
+    grp = comps[op[1] % len(comps)]
+    timed = [a for a in grp if meta["actions"][a]["action"].endswith(TIMED_VERBS)]
+    pool = timed or grp
+    return pool[op[2] % len(pool)]
+
+
 def expand_ops(ops: List, meta: Optional[Dict]) -> List:
     """Flatten workflow ops into plain ['step', action index] ops (for drivers that do not go through Driver.run)."""
     out = []
     comps = (meta or {}).get("components") or []
     for op in ops:
-        if op[0] == "wf":
+        if op[0] == "rep":
+            a = rep_action(op, meta)
+            if a is not None:
+                out.extend(["step", a] for _ in range(int(op[3])))
+        elif op[0] == "wf":
             if comps:
                 grp = comps[op[1] % len(comps)]
                 out.extend(["step", grp[v % len(grp)]] for v in op[2])
@@ -237,6 +256,8 @@ def ops_strategy(max_ops: int = 30, gen: bool = True, reset_weight: int = 2):
         k, a, cat, j, seed, verbs = t
         if k < reset_weight:
             return ["reset", seed]
+        if gen and k >= 22:
+            return ["rep", j, verbs[0], 2 + verbs[1] % 2]  # the SAME action two or three times in a row (fix, fix; scan, scan)
         if gen and k >= 19:
             return ["wf", j, verbs]  # a workflow: several verbs in a row on ONE component (install, remove, install ...)
         if gen and k >= 8:
@@ -345,8 +366,13 @@ class Driver:
                 self.episodes += 1
                 if after_reset and after_reset(i, op, obs, info) is False:
                     return
-            elif op[0] in ("wf", "idle"):
-                if op[0] == "wf":
+            elif op[0] in ("wf", "idle", "rep"):
+                if op[0] == "rep":
+                    a = rep_action(op, self.meta)
+                    if a is None:
+                        continue
+                    acts = [a] * int(op[3])
+                elif op[0] == "wf":
                     comps = (self.meta or {}).get("components") or []
                     if not comps:
                         continue
